@@ -527,6 +527,14 @@ def gen_cases(run):
         if c['kernel'] == 'l2' and k % 2:
             c['alias'] = 'laplace'
         cases.append(c)
+    # very tall x: crosses the internal row-block sizes of the categorical fast paths (5,000 / 10,000 rows)
+    for k, nx in enumerate([5001, 10003] if quick else [5001, 5001, 10003, 10003, 15007, 20011]):
+        c = random_case(r, k, 'kernel', 'kernel-tall')
+        c.update(kernel=['product', 'product', 'l2', 'lpq', 'product', 'product'][k % 6], nx=nx, nz=r.randint(2, 5), rank_deficient=False)
+        if c['kernel'] == 'lpq' and c.get('p') is None:
+            c['p'] = 1.5
+        c['q'] = min(c['q'], c['p']) if c['kernel'] == 'lpq' else c['q']
+        cases.append(c)
     # histories on one kernel object (the transform changes in place between evaluations)
     for k in range(24 if quick else 240):
         c = random_case(r, k, 'history', 'kernel-object-history', transforms=('diag', 'block', 'diag', 'none'))
